@@ -631,6 +631,8 @@ fn gen_write(rng: &mut Rng, client: &mut Client, cfg: &MixedCfg, key: u64) -> Wr
     }
 }
 
+static REENTRANT_AWAITS: AtomicU64 = AtomicU64::new(0);
+
 fn run_mixed(focus: &'static str, seed: u64, index: u64, clean: bool) -> CaseOut {
     let cfg = mixed_cfg(focus, seed, index, clean);
     let mut counts = Counts::default();
@@ -672,7 +674,16 @@ fn run_mixed(focus: &'static str, seed: u64, index: u64, clean: bool) -> CaseOut
             for n in 0..cfg.ops {
                 if rt::aborted() { break; }
                 let key = rng.range(1, cfg.keys);
-                if rng.chance(45, 100) {
+                if rng.chance(1, 50) {
+                    // a write issued from inside the mapping function of map_get, its acknowledgement awaited right there: the caller holds no
+                    // reference guard, so the worker must be able to execute it
+                    client.settle_all(&marks);
+                    let other = rng.range(1, cfg.keys);
+                    let value = client.token(other);
+                    let op = if rng.chance(1, 2) { WriteOp::PutW { key: other, value, weight: if cfg.clean_weights { key_weight(other) } else { rng.range(25, 60) as i64 } } } else { WriteOp::Delete { key: other } };
+                    let cell = std::cell::RefCell::new(&mut client);
+                    let _ = cache.map_get(&key, |stored| { let mut c = cell.borrow_mut(); c.write(&cache, op.clone()); c.settle_all(&marks); REENTRANT_AWAITS.fetch_add(1, Ordering::Relaxed); stored });
+                } else if rng.chance(45, 100) {
                     let variant = rng.below(7) as usize;
                     client.read(&cache, key, variant);
                 } else {
@@ -722,6 +733,7 @@ fn run_mixed(focus: &'static str, seed: u64, index: u64, clean: bool) -> CaseOut
     sched().quiet();
     logs.sort_by_key(|r| r.call);
     counts.add("client_operations", logs.len() as u64);
+    counts.add("writes_awaited_inside_the_mapping_function_of_map_get", REENTRANT_AWAITS.swap(0, Ordering::Relaxed));
     counts.add("clock_advances", advances);
     counts.add("observer_samples", samples.load(Ordering::Relaxed));
     counts.add("weight_change_events", recorder().weight_events.swap(0, Ordering::Relaxed));
@@ -801,6 +813,10 @@ fn run_same_key(focus: &'static str, seed: u64, index: u64) -> CaseOut {
         counters: 100, capacity: 16, max_weight: *rng.pick(&[1000i64, 100_000, 150, 400]), shards: 2, cmd_buf: *rng.pick(&[2usize, 8, 64]), pool: 1, buf: 2,
         tick: Duration::from_millis(1), weight_mode: if rng.chance(1, 2) { WeightMode::Default } else { WeightMode::Custom }, hash_mode: HashMode::Default, start_ns: rt::START_NS,
     };
+    // every fifth case: each of the racing puts weighs the whole cache, so admitting the second one means evicting the first incarnation of
+    // the very same key
+    let whole_cache = index % 5 == 4;
+    let sutcfg = if whole_cache { SutCfg { max_weight: 150, weight_mode: WeightMode::Custom, ..sutcfg } } else { sutcfg };
     let with_ttl = rng.chance(1, 2);
     let case = J::obj().with("engine", J::s("conc")).with("scenario", J::s("same-key")).with("variant", J::Int(variant as i128)).with("focus", J::s(focus))
         .with("seed", J::Int(seed as i128)).with("index", J::Int(index as i128)).with("config", sutcfg.to_json()).with("with_ttl", J::Bool(with_ttl));
@@ -813,7 +829,7 @@ fn run_same_key(focus: &'static str, seed: u64, index: u64) -> CaseOut {
     let mut second = Client::new(2);
     let make_put = |client: &mut Client, rng: &mut Rng| {
         let value = client.token(key);
-        let weight = rng.range(10, 60) as i64;
+        let weight = if whole_cache { 150 } else { rng.range(10, 60) as i64 };
         if with_ttl { WriteOp::PutWTtl { key, value, weight, ttl: Duration::from_secs(3600) } } else { WriteOp::PutW { key, value, weight } }
     };
     let mut window_entered = false;
